@@ -69,7 +69,8 @@ Ample(c) == c.end # "spin" /\ LeU(U(Cost(c)), Limit(c))
 NoneR == [has |-> 0, v |-> <<>>]
 NoneI == [has |-> 0, v |-> 0]
 NoPkgI == [has |-> 0, host |-> Zeros(4), u |-> Zeros(32), t |-> Zeros(4), j |-> <<>>, f |-> <<>>, items |-> <<>>]
-FxOf(c) == CASE c.kind = "I" -> [n |-> <<>>, r |-> NoneR, i |-> NoneI, x |-> <<>>, imp |-> <<>>, p |-> c.fx.p, o |-> 0]
+FxOf(c) == CASE c.kind = "I" -> [n |-> <<>>, r |-> NoneR, i |-> NoneI, x |-> <<>>, imp |-> <<>>, p |-> c.fx.p, o |-> 0,
+                                  nx |-> [q \in 1..Len(c.fx.x) |-> Len(c.fx.x[q])]]
              [] c.kind = "R" -> [n |-> <<>>, r |-> [has |-> 1, v |-> c.fx.r.v], i |-> [has |-> 1, v |-> c.fx.i.v], x |-> c.fx.x, imp |-> c.fx.imp, p |-> c.fx.p, o |-> 0]
              [] OTHER -> [n |-> c.fx.n, r |-> NoneR, i |-> NoneI, x |-> <<>>, imp |-> <<>>, p |-> NoPkgI, o |-> Len(c.inputs)]
 Table(c) == CASE c.kind = "I" -> TabIds("auth") [] c.kind = "R" -> TabIds("ref") [] OTHER -> TabIds("acc")
